@@ -1527,6 +1527,66 @@ func (c *c13ctx) negatedInFaults() {
 	}
 }
 
+// longLineFaults: the fault stands FAR to the right on its line (machine-generated one-line rules: columns beyond 2^12 and 2^16) or
+// far down (lines beyond 2^8), in every stream: a position is a pair of integers, whatever its size.
+func (c *c13ctx) longLineFaults() {
+	pad := func(n int) string { return "(I in [" + strings.Repeat("1, ", n) + "1]) or " }
+	for _, pre := range []string{pad(1400), pad(23000), "B or\n" + pad(1500), strings.Repeat("\n", 300) + "B or " + pad(100), "\"ñ\" == S or " + pad(1366)} {
+		for _, f := range []struct{ stream, fault, text, at string }{
+			{"unknown-name", "unknown name far to the right", "Zzz > 1", "Zzz"},
+			{"type-mismatch", "mismatched operands far to the right", "(I + \"a\") == 1", "+"},
+			{"syntax", "unexpected token far to the right", "I + * 2", "*"},
+			{"run", "failing membership test far to the right", "(I in AnyI)", "in"},
+			{"run", "failing index far to the right", "AI[I + 100] > 0", "["},
+		} {
+			src := pre + f.text
+			off := len(pre) + strings.Index(f.text, f.at)
+			p := c13posAt(src, utf8.RuneCountInString(src[:off]))
+			for _, m := range []struct{ typed, opt bool }{{true, true}, {true, false}} {
+				k := c13case{Stream: f.stream, Fault: f.fault, Src: src, Typed: m.typed, Opt: m.opt, Line: p.line, Col: p.col}
+				prog, err := c.compile(src, m.typed, m.opt)
+				c.rep.hist("fault far to the right / far down (" + f.stream + ")")
+				if f.stream != "run" {
+					if err == nil {
+						c.rep.hist("far fault: not rejected")
+						continue
+					}
+					k.Src = clip(src) // the failure record keeps the head of the source; the judgement below uses the whole text
+					kk := k
+					kk.Src = src
+					c.judgeQuiet(kk, k, err)
+					continue
+				}
+				if err != nil {
+					c.rep.hist("far run-time fault rejected at compile time")
+					continue
+				}
+				r, pan := c13safeRun(prog, c.env)
+				if pan != nil {
+					r.err = fmt.Errorf("vm.Run panicked: %v", pan)
+				}
+				if r.err == nil {
+					c.rep.hist("run-time program did not fail")
+					continue
+				}
+				kk := k
+				k.Src = clip(src)
+				c.judgeQuiet(kk, k, r.err)
+			}
+		}
+	}
+}
+
+// judgeQuiet judges with the full case and reports with the clipped one (sources of tens of kilobytes stay out of the report).
+func (c *c13ctx) judgeQuiet(full, shown c13case, err error) {
+	before := len(c.rep.Failures)
+	c.judge(full, err)
+	for i := before; i < len(c.rep.Failures); i++ {
+		c.rep.Failures[i].Input = shown
+		c.rep.Failures[i].Replay = ""
+	}
+}
+
 func (c *c13ctx) runFaults(n int) {
 	// programs kept to be run AGAIN after all the later compilations (an application compiles its rule set first and
 	// evaluates later): the position a program reports does not depend on what was compiled after it
@@ -1776,6 +1836,7 @@ func runC13() {
 	c.runFaults(nRun)
 	c.nestedEvalFaults()
 	c.negatedInFaults()
+	c.longLineFaults()
 	c.snippets(nSnip)
 
 	rep.Distinct = len(c.distinct)
